@@ -272,7 +272,7 @@ func (h *Handler) handleCopyMove(w http.ResponseWriter, r *http.Request) error {
 	if s := r.Header.Get("Overwrite"); s != "" {
 		overwrite, err = ParseOverwrite(s)
 		if err != nil {
-			return err
+			return &HTTPError{http.StatusBadRequest, err}
 		}
 	}
 
@@ -280,7 +280,7 @@ func (h *Handler) handleCopyMove(w http.ResponseWriter, r *http.Request) error {
 	if s := r.Header.Get("Depth"); s != "" {
 		depth, err = ParseDepth(s)
 		if err != nil {
-			return err
+			return &HTTPError{http.StatusBadRequest, err}
 		}
 	}
 
